@@ -202,6 +202,13 @@ impl Check for C05 {
             let l = m_peak / 2 + sr.usize(m_peak * 6);
             schedules.push(sched(GcPlan::Natural, false, l));
         }
+        // the same limits configured on a VM that already exists (created with another limit, then
+        // RuntimeData::set_memory_limit): the threshold logic starts from whatever that left behind
+        for l in [m_peak, m_peak * 3 / 2, m_peak * 3, m_peak * 8] {
+            let mut s = sched(GcPlan::Natural, false, l);
+            s.knobs.limit_from = Some(*sr.pick(&[400 * 1024usize, l * 16, l / 4 + 64, 1 << 24]));
+            schedules.push(s);
+        }
         // forced collections at seeded points, real frees
         let a = base.counters.allocs.max(1);
         for _ in 0..2 {
